@@ -267,9 +267,10 @@ func xtalkInstances(tier string) []Instance {
 			}
 		}
 	}
+	pruneFrom := 0 // pruned at every bound except where stated
 	add := func(bound int, threads ...[]xCall) {
 		p := xParams{threads: threads}
-		out = append(out, Instance{Name: p.name(), Bound: bound, Root: xtalkScenario(p)})
+		out = append(out, Instance{Name: p.name(), Bound: bound, Root: xtalkScenario(p), PruneFrom: pruneFrom})
 	}
 	kinds := []string{"QuorumCall", "QuorumCallAsync", "Correctable", "CorrectableStream", "GRPCCall", "Multicast"}
 	mk := func(kind string, nodes []int, thr int, cancel bool) xCall {
@@ -296,7 +297,12 @@ func xtalkInstances(tier string) []Instance {
 					if cancel && (world.IsOneWay(a)) {
 						continue
 					}
+					pruneFrom = 0
+					if !overlap && !cancel {
+						pruneFrom = 2 // every single deviation, unpruned (exact also where an access is unsynchronised)
+					}
 					add(b1, []xCall{mk(a, []int{1, 2}, 1, cancel)}, []xCall{mk(b, nb, 1, false)})
+					pruneFrom = 0
 				}
 			}
 		}
@@ -312,6 +318,13 @@ func xtalkInstances(tier string) []Instance {
 			add(b, []xCall{mk(a, []int{1, 2}, thr, false), mk("QuorumCall", []int{1, 2}, thr, false)}, []xCall{mk("QuorumCall", []int{1, 2}, 1, false)})
 		}
 	}
+	// a node's error must reach a call at most once as well: the fault family of C07 in which the request is
+	// still queued when the stream breaks and the receiver is held up by a slow streaming consumer
+	for _, in := range faultInstances(tier) {
+		if strings.Contains(in.Name, "-queued") {
+			out = append(out, in)
+		}
+	}
 	if thorough(tier) {
 		add(1, []xCall{mk("QuorumCall", []int{1, 2}, 1, true)}, []xCall{mk("QuorumCall", []int{2, 3}, 2, true)}, []xCall{mk("GRPCCall", []int{2}, 1, false)})
 	}
@@ -320,7 +333,7 @@ func xtalkInstances(tier string) []Instance {
 
 func init() {
 	register(&Check{ID: "C05",
-		Rule: "two (three in thorough) concurrent client threads on one manager with 3 nodes: every ordered pair over {quorum call, async, correctable, correctable stream, RPC, multicast} on equal or overlapping configurations ({1,2} vs {1,2} / {2,3}), with and without a cancel event for the first call, plus back-to-back calls of one thread concurrent with another thread (thresholds 1 and 2); every handler releases early and is gated individually, and the script opens the gates and fires the cancel in every order at quiescent points (so replies arrive after their call returned or was cancelled); all schedules within the deviation bound; oracle: every reply shown to a quorum function or returned carries the observer's own call token and the node id it is filed under, at most one reply per node and call, nothing observed after return, one message id per call; an outcome is (instance, event order)",
+		Rule: "two (three in thorough) concurrent client threads on one manager with 3 nodes: every ordered pair over {quorum call, async, correctable, correctable stream, RPC, multicast} on equal or overlapping configurations ({1,2} vs {1,2} / {2,3}), with and without a cancel event for the first call, plus back-to-back calls of one thread concurrent with another thread (thresholds 1 and 2); every handler releases early and is gated individually, and the script opens the gates and fires the cancel in every order at quiescent points (so replies arrive after their call returned or was cancelled); all schedules within the deviation bound; plus the queued-request fault family of C07 (error delivered at most once per node); oracle: every reply shown to a quorum function or returned carries the observer's own call token and the node id it is filed under, at most one reply per node and call, nothing observed after return, one message id per call; an outcome is (instance, event order)",
 		Gen:  xtalkInstances,
 		Assumptions: []string{"puppet servers stamp every reply with (call token, node, sequence); transport is the fakegrpc model"},
 	})
